@@ -193,3 +193,43 @@ pub fn assert_is(s: &[E], m: &Model, vals: &[u8; NIDS]) {
         k += 1;
     }
 }
+
+/// a larger buffer for the concrete-shape harnesses (interior split ranges need len 5..6 to tell rotate_left from
+/// rotate_right)
+pub const CAP6: usize = 6;
+pub type Buf6 = [MaybeUninit<E>; CAP6];
+
+pub fn new_buf6() -> Buf6 {
+    [const { MaybeUninit::<E>::uninit() }; CAP6]
+}
+
+pub unsafe fn boxed6<'a>(buf: &mut Buf6, len: usize, vals: &[u8; NIDS]) -> BumpBox<'a, [E]> {
+    unsafe {
+        let mut k = 0;
+        while k < CAP6 {
+            if k < len {
+                buf[k].write(E { id: k as u8, val: vals[k] });
+            }
+            k += 1;
+        }
+        let ptr = NonNull::new_unchecked(buf.as_mut_ptr()).cast::<E>();
+        BumpBox::from_raw(NonNull::slice_from_raw_parts(ptr, len))
+    }
+}
+
+pub unsafe fn fixed6<'a>(buf: &mut Buf6, len: usize, vals: &[u8; NIDS]) -> FixedBumpVec<'a, E> {
+    unsafe {
+        let mut k = 0;
+        while k < CAP6 {
+            if k < len {
+                buf[k].write(E { id: k as u8, val: vals[k] });
+            }
+            k += 1;
+        }
+        let ptr = NonNull::new_unchecked(buf.as_mut_ptr());
+        let boxed: BumpBox<'a, [MaybeUninit<E>]> = BumpBox::from_raw(NonNull::slice_from_raw_parts(ptr, CAP6));
+        let mut v = FixedBumpVec::from_uninit(boxed);
+        v.set_len(len);
+        v
+    }
+}
